@@ -1100,3 +1100,43 @@ Lemma payload_buffer_bounded b h r data r2 :
 Proof.
   intros Hb E E2. apply read_exact_inv in E2 as (_ & -> & Hn). exact Hn.
 Qed.
+
+(* ------------------------------------------------------------------ history: the code before the
+   `fix:` commits (Module Pinned of Model/Codec.v) violates the properties; each witness was
+   replayed on the real code by the harness (corpus/codec/*.ops) *)
+
+(* ops.rs:139 `u8_buff[0] + 1`: an entity-id TLV whose length byte is 0xff panics *)
+Example pinned_varid_decode_refuted : Pinned.varid_decode [255; 0] = Panic.
+Proof. vm_compute. reflexivity. Qed.
+Example fixed_varid_decode_witness : varid_decode [255; 0] = Err.
+Proof. vm_compute. reflexivity. Qed.
+
+(* header.rs:395 `u16::from_be_bytes(u16_buff) - 2`: CRC flag with a length field below 2 *)
+Example pinned_data_field_length_refuted : Pinned.data_field_length CRCFlag_Present 1 = Panic.
+Proof. vm_compute. reflexivity. Qed.
+Example fixed_short_crc_length_witness : pdu_decode [34; 0; 1; 0; 0; 0; 0] = Err.
+Proof. vm_compute. reflexivity. Qed.
+
+(* ops.rs MetadataTLV::encoded_len: the EntityID arm announced one byte less than it encodes *)
+Example pinned_tlv_encoded_len_refuted :
+  wf_tlv (Tlv_EntityID (VU8 7)) /\
+  blen (tlv_encode (Tlv_EntityID (VU8 7))) <> Pinned.tlv_encoded_len (Tlv_EntityID (VU8 7)).
+Proof. split; [cbn; lia|]. rewrite tlv_len. vm_compute. discriminate. Qed.
+
+(* pdu.rs PDU::encoded_len: the two CRC bytes were not counted *)
+Definition witness_header (crc : CRCFlag) : pdu_header :=
+  mk_header U3_One PDUType_FileDirective Direction_ToReceiver TransmissionMode_Acknowledged crc
+    FileSizeFlag_Small 5 SegmentationControl_NotPreserved SegmentedData_NotPresent (VU8 1) (VU8 2) (VU8 3).
+Definition witness_pdu (crc : CRCFlag) : pdu :=
+  mk_pdu (witness_header crc) (Pl_Directive (Op_KeepAlive 9)).
+
+Lemma witness_pdu_wf crc : wf_pdu (witness_pdu crc).
+Proof.
+  unfold wf_pdu, witness_pdu, wf_header, witness_header. cbn. unfold two32.
+  destruct crc; cbn [crc_len]; splits; try reflexivity; lia.
+Qed.
+
+Example pinned_pdu_encoded_len_refuted :
+  wf_pdu (witness_pdu CRCFlag_Present) /\
+  blen (pdu_encode (witness_pdu CRCFlag_Present)) <> Pinned.pdu_encoded_len (witness_pdu CRCFlag_Present).
+Proof. split; [apply witness_pdu_wf|]. rewrite pdu_len_holds by apply witness_pdu_wf. vm_compute. discriminate. Qed.
